@@ -172,7 +172,7 @@ theorem SameLz.trans {a b c : St} (h1 : SameLz a b) (h2 : SameLz b c) : SameLz a
    h2.dp.trans h1.dp, h2.hist.trans h1.hist, h2.outBase.trans h1.outBase⟩
 
 /-- SEQ_UNCOMPRESSED_1 … SEQ_COMPRESSED_1: the two size fields of an LZMA chunk header -/
-theorem loop_sizes (f : Nat) (t : St) (u c : Nat) (hu : u < 2097152) (hc : c < 65536) (rest : List UInt8)
+theorem loop_sizes (f : Nat) (t : St) (u c : Nat) (_hu : u < 2097152) (hc : c < 65536) (rest : List UInt8)
     (hseq : t.l2.seq = .uncompressed1) (hhigh : t.l2.uncompressedSize = (u / 65536) <<< 16)
     (hin : t.inp.data.toList.drop t.inPos =
       UInt8.ofNat ((u / 256) % 256) :: UInt8.ofNat (u % 256) :: UInt8.ofNat (c / 256) :: UInt8.ofNat (c % 256) :: rest) :
